@@ -384,6 +384,96 @@ class ListShapes(Family):
         return Result(o, nt, v, 2)
 
 
+ANTICIPATED = [
+    # (grader key, input, documented problem, acceptable specific error classes)
+    ('Formula', 'x+', 'malformed formula', ('UnableToParse',)),
+    ('Formula', '(x', 'unbalanced bracket', ('UnbalancedBrackets',)),
+    ('Formula', 'x)', 'unbalanced bracket', ('UnbalancedBrackets',)),
+    ('Formula', '[x)', 'mismatched bracket', ('UnbalancedBrackets',)),
+    ('Formula', 'y+1', 'unknown variable', ('UndefinedVariable',)),
+    ('Formula', 'X+1', 'wrong case variable', ('UndefinedVariable',)),
+    ('Formula', 'g(x)', 'unknown function', ('UndefinedFunction',)),
+    ('Formula', 'Sin(x)', 'wrong case function', ('UndefinedFunction',)),
+    ('Formula', '2q', 'unknown suffix', ('UndefinedFunction',)),
+    ('Formula', '1/0', 'division by zero', ('CalcZeroDivisionError',)),
+    ('Formula', 'x/(x-x)', 'division by zero', ('CalcZeroDivisionError',)),
+    ('Formula', '0^-1', 'division by zero', ('CalcZeroDivisionError',)),
+    ('Formula', '10^400', 'overflow', ('CalcOverflowError',)),
+    ('Formula', '2^2^2^2^2', 'overflow', ('CalcOverflowError',)),
+    ('Formula', 'exp(1000)', 'overflow in function', ('CalcOverflowError',)),
+    ('Formula', 'sin(1,2)', 'wrong number of arguments', ('ArgumentError',)),
+    ('Formula', 'arctan2(1)', 'wrong number of arguments', ('ArgumentError',)),
+    ('Formula', 'f(1,2)', 'wrong number of arguments (user function)', ('ArgumentError',)),
+    ('Formula', 'min(1)', 'too few arguments', ('ArgumentError',)),
+    ('Formula', 'ln(0)', 'function outside its domain', ('FunctionEvalError', 'CalcZeroDivisionError', 'CalcOverflowError')),
+    ('Formula', 'cot(0)', 'pole', ('CalcZeroDivisionError', 'FunctionEvalError')),
+    ('Formula', '[1,2]', 'vector where forbidden', ('UnableToParse',)),
+    ('Matrix', '[1,2]+[1,2,3]', 'adding different shapes', ('MathArrayShapeError',)),
+    ('Matrix', '[1,2]+1', 'adding a scalar to a vector', ('MathArrayError', 'MathArrayShapeError')),
+    ('Matrix', '[[1,2],[3,4]]*[1,2,3]', 'incompatible product', ('MathArrayShapeError',)),
+    ('Matrix', '[1,2]/[1,2]', 'division by a vector', ('MathArrayError', 'MathArrayShapeError')),
+    ('Matrix', '[1,2]^2', 'power of a vector', ('MathArrayShapeError', 'MathArrayError')),
+    ('Matrix', 'A^0.5', 'non-integer power of a matrix', ('MathArrayError',)),
+    ('Matrix', 'A^i', 'complex power of a matrix', ('MathArrayError',)),
+    ('Matrix', 'A^(1+i)', 'complex power of a matrix', ('MathArrayError',)),
+    ('Matrix', '[[1,2],[2,4]]^-1', 'inverse of a singular matrix', ('MathArrayError',)),
+    ('Matrix', '2^A', 'matrix exponent', ('MathArrayError', 'MathArrayShapeError')),
+    ('Matrix', 'sin([1,2])', 'vector into a scalar function', ('ArgumentShapeError',)),
+    ('Matrix', 'det([1,2])', 'vector into det', ('ArgumentShapeError',)),
+    ('Matrix', 'cross([1,2],[3,4])', 'cross product of 2-vectors', ('ArgumentShapeError',)),
+    ('Matrix', '[1,[2,3]]', 'ragged array', ('UnableToParse',)),
+    ('Matrix', '[1,2]*[1,2]*[1,2]', 'triple vector product', ('CalcError',)),
+    ('Matrix', '[[[1,2],[3,4]],[[5,6],[7,8]]]', 'tensor where forbidden', ('UnableToParse',)),
+    ('Matrix', '[1,2,3]', 'answer of the wrong shape', ('InputTypeError',)),
+    ('Matrix', '5', 'scalar for a vector answer', ('InputTypeError',)),
+    ('Numerical', 'x', 'variable in a numerical answer', ('UndefinedVariable',)),
+    ('Numerical', '2.5+', 'malformed number', ('UnableToParse',)),
+]
+
+
+class Anticipated(Family):
+    name = 'anticipated_problems'
+    rule = ('a table of %d documented, anticipated student mistakes (malformed / unbalanced formulas, unknown names, division by zero, '
+            'overflow, wrong arity, function domain, shape-illegal array arithmetic incl. non-integer and COMPLEX matrix powers, wrong '
+            'answer shape) submitted with debug off: each must surface as its specific documented error class with a message free of '
+            'raw line breaks -- not as the generic "Could not check input" error' % len(ANTICIPATED))
+
+    def setup(self, tier):
+        self.gn = math_graders(False)
+
+    def cases(self, tier):
+        return iter(range(len(ANTICIPATED)))
+
+    def describe(self, case):
+        k, inp, what, classes = ANTICIPATED[case]
+        return {'grader': k, 'input': inp, 'problem': what, 'expected_error': list(classes)}
+
+    def check(self, case):
+        k, inp, what, classes = ANTICIPATED[case]
+        g = self.gn[k]
+
+        def body(ch):
+            try:
+                return ('ok', g(None, inp))
+            except Exception as e:
+                return ('err', e)
+        _, got = chooser.run_with(body)
+        if got[0] == 'ok':
+            return Result('graded', True, viol('anticipated:graded-instead-of-error:' + what.replace(' ', '-'),
+                                               '%s grader, input %r (%s): expected %s, but it was graded: %r' % (k, inp, what, '/'.join(classes), got[1]),
+                                               list(classes), got[1]))
+        e = got[1]
+        names = [c.__name__ for c in type(e).__mro__]
+        if not any(c in names for c in classes):
+            return Result('wrong-class:' + type(e).__name__, True,
+                          viol('anticipated:specific-error-lost:' + what.replace(' ', '-'),
+                               '%s grader, input %r (%s): expected %s, got %s: %s' % (k, inp, what, '/'.join(classes), type(e).__name__, str(e)[:200]),
+                               list(classes), '%s: %s' % (type(e).__name__, str(e)[:200])))
+        if '\n' in str(e).replace('<br/>\n', ''):
+            return Result('newline', True, viol('anticipated:raw-line-break', 'message of %s has a raw line break' % type(e).__name__))
+        return Result('kept:' + type(e).__name__, True)
+
+
 NONTEXT = [None, 5, 1.5, b'x', ('a',), {'a': 1}, [], [None], ['a', 5], [['a']], ['a', ['b']], True, object]
 
 
@@ -441,5 +531,6 @@ def families(tier):
         Hostile(),
         Nesting(),
         ListShapes(),
+        Anticipated(),
         NonText(),
     ]
